@@ -250,7 +250,7 @@ func (m *dMachine) Next(t *rapid.T) dOp {
 			return genBlock(t)
 		}
 	})
-	op.Ops = append(op.Ops, rapid.SliceOfN(one, 1, 8).Draw(t, "seq")...)
+	op.Ops = append(op.Ops, rapid.SliceOfN(one, 1, 10).Draw(t, "seq")...)
 	return op
 }
 
@@ -320,6 +320,9 @@ func (m *dMachine) Apply(op dOp) error {
 				m.seen["msg/"+ty+"/ok-under-P"]++
 			}
 			m.seen[fmt.Sprintf("outcome/default-%s+P-%s", rD.outcome, rQ.outcome)]++
+		}
+		if rD.outcome == chain.Panicked {
+			m.seen["default/panicked/"+ty]++ // the operation aborts under the defaults on this state: nothing is demanded of the run under P
 		}
 		dOrdinary := rD.outcome == chain.OK || rD.outcome == chain.Rejected
 		if o.M == "block" {
@@ -392,7 +395,7 @@ func (m *dMachine) Classify() (bool, []string) {
 	return m.arith, cl
 }
 
-const diffRule = "rapid state machine on a prepared state (coinswap pools, farm pools with farmers, open HTLCs near expiry, service definition/bindings/running repeated context with active requests, tokens incl. one ERC20 pair) that evolves under default parameters; differential step = (module, parameter set P from the message-space grids, sequence of 1-9 symbolic operations over every Msg method of coinswap/farm/htlc/service/token(v1+v1beta1) and block runs of 1-61 blocks): P installed by the authority on a branch, every operation run on a sub-branch with the defaults restored and on the branch under P, outcomes compared; non-trivial = history with an accepted non-default P under which at least one operation that computes with the parameters (swap/unilateral fee, pool creation fee and tax, farm creation fee and tax, HTLT limits, service deposit/tax/timeout, slash at expiry, token issue/mint fee) ran to success or abort; distinct by SHA-256 of the op list"
+const diffRule = "rapid state machine on a prepared state (coinswap pools, farm pools with farmers, open HTLCs near expiry, service definition/bindings/running repeated context with active requests, tokens incl. one ERC20 pair) that evolves under default parameters; differential step = (module, parameter set P from the message-space grids, sequence of 1-11 symbolic operations over every Msg method of coinswap/farm/htlc/service/token(v1+v1beta1) and block runs of 1-61 blocks): P installed by the authority on a branch, every operation run on a sub-branch with the defaults restored and on the branch under P, outcomes compared; non-trivial = history with an accepted non-default P under which at least one operation that computes with the parameters (swap/unilateral fee, pool creation fee and tax, farm creation fee and tax, HTLT limits, service deposit/tax/timeout, slash at expiry, token issue/mint fee) ran to success or abort; distinct by SHA-256 of the op list"
 
 func TestC16Differential(t *testing.T) {
 	missing, stale, total := catalogueGaps()
